@@ -72,6 +72,7 @@ func mustKeep(s string) (bool, string) {
 
 func check(c *core.Ctx, s string) {
 	c.Eval(1)
+	c.Note(func() interface{} { return kase{util.Q(s)} })
 	var out string
 	if p := core.Recover(func() { out = safehtml.URLSanitized(s).String() }); p != nil {
 		c.Violation(kase{util.Q(s)}, "URLSanitized panicked on %+q: %v", s, p)
